@@ -147,6 +147,8 @@ Inductive case :=
   | KAvgMarg (eps : Q) (c : calls) (bases : list Q) (h : list (list Q))
   (* s.copy() *)
   | KCopy (eps : Q) (c : calls) (bases : list Q) (h : list (list Q))
+  (* s.calc(big vector)[sampled indices]: the scale and the amounts at the sampled bases *)
+  | KCalc (eps : Q) (c : calls) (bases : list Q) (h : list (list Q))
   (* a sequence of transformations of ONE scale object; before the first and after every
      step the current object is probed: calc, inverse (+ round trip), to_average,
      to_average().to_marginal(), and probe.add_tax_scale(current) *)
@@ -196,5 +198,7 @@ Definition run (k : case) : obs :=
       let r := copy_call (build c) in
       OL [oscale_exact (returned r); oscale_exact (self_after r); OB (aliased r);
           oamounts (calc_marginal eps 1 None (returned r) bases) h 0]
+  | KCalc eps c bases h =>
+      let s := build c in OL [oscale_exact s; oamounts (calc_marginal eps 1 None s bases) h 0]
   | KProg eps c probe steps bases h => OL (run_prog eps probe bases h 0 steps (build c))
   end.
